@@ -97,7 +97,18 @@ func (w WorkspaceConfig) GetCurrentPackage() (string, error) {
 		return "", fmt.Errorf("failed to get current working directory: %w", err)
 	}
 
-	rel, err := filepath.Rel(w.WorkspaceRoot, cwd)
+	// os.Getwd reports $PWD, i.e. the path the user came through, while the workspace root has
+	// its symlinks resolved: compare the two in resolved form, otherwise a workspace entered
+	// through a symlink yields a current package like "../../link/ws/pkg".
+	workspaceRoot := w.WorkspaceRoot
+	if resolved, err := filepath.EvalSymlinks(cwd); err == nil {
+		cwd = resolved
+	}
+	if resolved, err := filepath.EvalSymlinks(workspaceRoot); err == nil {
+		workspaceRoot = resolved
+	}
+
+	rel, err := filepath.Rel(workspaceRoot, cwd)
 	if err != nil {
 		return "", fmt.Errorf("failed to get relative path: %w", err)
 	}
